@@ -74,7 +74,7 @@ q = queue.Queue()
 for w in work:
     q.put(w)
 lock = threading.Lock()
-root = '/tmp/mutcamp'
+root = os.environ.get('MUTCAMP_ROOT', '/tmp/mutcamp')
 os.makedirs(root, exist_ok=True)
 
 def run(cmd, cwd, timeout, env=ENV):
